@@ -178,7 +178,16 @@ def text_family(rng, ctx, tmp, quick, k):
                                             noffset_list=[spec.offset], wf_list=[spec.wf], wf2_list=[0], version=version, silent=True, keyed_out=True)
         key = [k for k in out if k.startswith(spec.name + '/')][0]
         return out[key]
-    readers = [('', read)] + ([('-multi', read_multi)] if len(specs) > 1 else [])
+
+    def read_multi_low():
+        # ... and the correlator printed LAST in the file while the request names it first
+        low = specs[-1]
+        out = pe.input.sfcf.read_sfcf_multi(d, 'tst', [s_.name for s_ in specs[::-1]], quarks_list=[spec.quarks], corr_type_list=[s_.corr_type for s_ in specs[::-1]],
+                                            noffset_list=[spec.offset], wf_list=[spec.wf], wf2_list=[0], version=version, silent=True, keyed_out=True)
+        key = [k for k in out if k.startswith(low.name + '/')][0]
+        return out[key]
+    reps_low = [{'stem': 'tst_r%d' % r, 'recs': [{'cfg': cfg, 'p': [[rat(re), rat(im)] for re, im in corrs[tuple(specs[-1])]]} for cfg, corrs in replicas['tst_r%d' % r]]} for r in idxs]
+    readers = [('', read, reps)] + ([('-multi', read_multi, reps), ('-multilow', read_multi_low, reps_low)] if len(specs) > 1 else [])
     # the files that are cut: appended -> the f_A file of the first and of the last replica; otherwise (one file per configuration) the file of
     # the FIRST configuration of the first replica (the one the reader takes the layout from), a middle one and the LAST of the last replica
     mine = [x for x in desc if x.get('name') in (None, 'f_A')]
@@ -199,7 +208,7 @@ def text_family(rng, ctx, tmp, quick, k):
         if quick and len(targets) > 2 and pos not in (0, len(cl[r_idx]) - 1):
             offs = offs[::3]
         for cut in offs:
-            for rtag, rd in readers:
+            for rtag, rd, rreps in readers:
                 if rtag and quick and cut % 2:
                     continue
                 orig = cut_file(target['path'], cut)
@@ -208,7 +217,7 @@ def text_family(rng, ctx, tmp, quick, k):
                     f.write(orig)
                 res = c17.res_series(r if isinstance(r, Exception) else list(r))
                 cid = 'cut-sfcf%s%s-%s-%05d' % (version, rtag, '_'.join(target['path'].split(os.sep)[-2:]) if not appended else os.path.basename(target['path']), cut)
-                cases.append({'id': cid, 'ev': 'trunc', 'fmt': 'sfcf', 'reps': reps, 'par': {'im': False}, 'sel': {'k': 'all'}, 'r': r_idx, 'bounds': bounds, 'cut': cut,
+                cases.append({'id': cid, 'ev': 'trunc', 'fmt': 'sfcf', 'reps': rreps, 'par': {'im': False}, 'sel': {'k': 'all'}, 'r': r_idx, 'bounds': bounds, 'cut': cut,
                               'cutinfo': '%d of %d bytes' % (cut, size), 'known': 'sfcf: ' + KNOWN_TAIL, 'res': res})
             ctx.nontrivial.add(('sfcf', version, r_idx, pos, cut))
     return cases
